@@ -764,7 +764,11 @@ def crack_explains(c, d):
     if len(mine) != len(cells):
         return False
     for a, b in zip(mine, cells):
-        if a[:7] != b[:7] or a[8:] != b[8:] or (b[7] != -1 and a[7] != b[7]):
+        if a[:7] != b[:7] or a[8] != b[8] or (b[7] != -1 and a[7] != b[7]):
+            return False
+        # the centre of mass up to a few ulps (a refactored mean update may round differently)
+        tol = 8 * (a[8] + 2) * 2.0 ** -52 * max(abs(a[1]) + a[3], abs(a[2]) + a[4])
+        if abs(a[9] - b[9]) > tol or abs(a[10] - b[10]) > tol:
             return False
     return t.cracks > 0
 
